@@ -884,14 +884,14 @@ def run(ctx):
         mask_kernels = [(3, 3), (1, 3), (5, 3)]
         n_rand = (250, 120, 300)
         hist_frames, hist_buffers, hist_reads, n_rand_hist = [(2, 2, 4), (2, 3, 3)], [0], False, 250
-        mhist_frames, n_rand_mhist = [(1, 4, 1, 3, 3), (2, 3, 1, 3, 2)], 200
+        mhist_frames, n_rand_mhist = [(1, 4, 1, 3, 2), (1, 3, 1, 3, 3), (2, 2, 3, 3, 2), (2, 2, 1, 1, 2)], 150
     else:
         mask_shapes = _mask_shapes(12, 6)
         mask_kernels = [(3, 3), (1, 3), (5, 3), (3, 5)]
         n_rand = (3000, 1500, 4000)
         hist_frames, hist_buffers, hist_reads, n_rand_hist = [(2, 2, 4), (2, 3, 3), (3, 2, 3), (1, 4, 3), (4, 1, 3)], [0, 1], True, 4000
         mhist_frames, n_rand_mhist = [(1, 4, 1, 3, 3), (4, 1, 3, 1, 3), (2, 3, 1, 3, 2), (3, 2, 3, 1, 2), (2, 3, 3, 3, 2),
-                                      (2, 2, 3, 3, 3), (1, 5, 1, 3, 3)], 3000
+                                      (2, 2, 3, 3, 3), (2, 2, 1, 1, 2)], 3000
     buffers = [0, 1, 2]
     ctx.bounds = {"resize_input_shapes": "1..6 x 1..6", "resize_target_shapes": "1..8 x 1..8 (every parity combination)",
                   "pad_trim_kernels": kernels, "mask_frames_all_nonempty_masks": mask_shapes,
